@@ -157,4 +157,62 @@ static Val run_socknet(const Val &c)
     return Val::List({Val::Bytes(got), Val::Bool(closed)});
 }
 
-void reg_sock() { registerFamily("sock", run_sock); registerFamily("sockl", run_sockl); registerFamily("socknet", run_socknet); }
+// family "stream": a response streamed with back-pressure over a REAL loopback connection - the application writes the next
+// chunk from inside its bytesWritten slot (or one turn later), and closes once everything it wrote has been reported.
+//   case ::= ( (chunk..) deferred explicitHeaders )        obs ::= ( bodyWritten notifiedSum maxOvershoot clientBodyLen stalled )
+static Val run_stream(const Val &c)
+{
+    auto pumpTill = [](std::function<bool()> cond, int maxMs) {
+        QElapsedTimer t; t.start();
+        while (!cond()) { if (t.elapsed() > maxMs) return false; QCoreApplication::processEvents(QEventLoop::AllEvents, 5); }
+        return true;
+    };
+    QList<QByteArray> chunks;
+    for (auto &v : c.at(0).l) chunks.append(v.asBytes());
+    bool deferred = c.at(1).asInt() != 0, explicitHeaders = c.at(2).asInt() != 0;
+    QTcpServer srv;
+    if (!srv.listen(QHostAddress::LocalHost, 0)) throw std::runtime_error("nolisten");
+    QTcpSocket client;
+    QByteArray got;
+    QObject::connect(&client, &QTcpSocket::readyRead, [&]() { got += client.readAll(); });
+    client.connectToHost(QHostAddress::LocalHost, srv.serverPort());
+    pumpTill([&]() { return srv.hasPendingConnections() && client.state() == QAbstractSocket::ConnectedState; }, 3000);
+    QTcpSocket *peer = srv.nextPendingConnection();
+    if (!peer) throw std::runtime_error("noaccept");
+    peer->setParent(nullptr);
+    Socket *s = new Socket(peer);
+    QPointer<Socket> guard(s);
+    qint64 written = 0, notified = 0, overshoot = 0;
+    int next = 0;
+    auto writeNext = [&]() {
+        if (!guard || next >= chunks.size()) return;
+        const QByteArray &ch = chunks[next++];
+        s->write(ch);
+        written += ch.size();
+    };
+    QObject::connect(s, &Socket::bytesWritten, [&](qint64 n) {
+        notified += n;
+        overshoot = qMax(overshoot, notified - written);
+        if (deferred) QMetaObject::invokeMethod(s, [&]() { writeNext(); }, Qt::QueuedConnection);
+        else writeNext();
+    });
+    QObject::connect(s, &Socket::headersParsed, [&]() {
+        qint64 total = 0;
+        for (auto &ch : chunks) total += ch.size();
+        s->setHeader("Content-Length", QByteArray::number(total));
+        if (explicitHeaders) s->writeHeaders();
+        writeNext();
+        if (chunks.size() > 1 && chunks[0].isEmpty()) writeNext();      // an empty first chunk reports nothing: keep going
+    });
+    client.write("GET /s HTTP/1.1\r\n\r\n"); client.flush();
+    bool done = pumpTill([&]() { return next >= chunks.size() && notified >= written; }, 600);
+    if (guard) s->close();
+    pumpTill([&]() { return client.state() == QAbstractSocket::UnconnectedState; }, 300);
+    client.abort();
+    if (guard) delete s;
+    QCoreApplication::sendPostedEvents(nullptr, QEvent::DeferredDelete);
+    int i = got.indexOf("\r\n\r\n");
+    return Val::List({Val::Int(written), Val::Int(notified), Val::Int(overshoot), Val::Int(i >= 0 ? got.size() - i - 4 : -1), Val::Bool(!done)});
+}
+
+void reg_sock() { registerFamily("stream", run_stream); registerFamily("sock", run_sock); registerFamily("sockl", run_sockl); registerFamily("socknet", run_socknet); }
